@@ -33,7 +33,7 @@ from vf.ref import c30_quicdemux as ref
 PROPERTY = "C30"
 LEVEL = "exploration"
 ENGINE = "sansio"
-BUDGET = {"quick": (1200, 16), "thorough": (50000, 200)}
+BUDGET = {"quick": (1500, 16), "thorough": (50000, 200)}
 WORKERS = {"quick": 4, "thorough": 16}
 REQUIRED = ["route.data", "route.class", "route.term", "pairs", "allocations", "fin_out", "reset_out", "stop_out", "events_behind_pending_hook"]
 TECHNIQUE = "runtime monitoring: random interleaving of QUIC stream events on the real RawQuicLayer + tag-based routing oracle on the command log"
